@@ -581,6 +581,7 @@ func genExtract(t *rapid.T) *ExtractCase {
 	c.K = rapid.IntRange(1, np+1).Draw(t, "k")
 	c.Inplace = rapid.Bool().Draw(t, "inplace")
 	c.Digest = rapid.SampledFrom([]string{"", "", "sha256"}).Draw(t, "digest")
+	c.SeedAction = rapid.SampledFrom([]string{"", "", "", "skip", "regenerate", "regenerate"}).Draw(t, "seedaction")
 	for i, ns := 0, rapid.SampledFrom([]int{0, 0, 0, 1, 1, 2}).Draw(t, "nseeds"); i < ns; i++ {
 		sp := SeedSpec{Dir: rapid.IntRange(0, 2).Draw(t, "seeddir?") == 0}
 		unrelated := rapid.IntRange(0, 3).Draw(t, "unrelated?") == 0
@@ -634,7 +635,7 @@ var spec = &hx.Spec[Case]{
 	Level: "fault_enumeration",
 	Rule: "store cases = (1..4 chunks, compressed or not, 1 pinned writer or 2..4 concurrent writers incl. the same chunk from several, optional pre-existing chunk/prefix directory, " +
 		"crash point = SIGKILL at the entry of the c-th mkdirat/openat/write/close/renameat/unlinkat of the writer thread (strace inject), or RLIMIT_FSIZE=b with and without a kill at the write that follows the cut one); " +
-		"extract cases = (1..10 chunk positions over 1..7 distinct chunks, -n 1..4, with/without -k, digest sha512-256 or sha256 (index, store objects and --digest), destination name blob or 200/243/244/250/255 bytes long (from 244 on a temporary .<name>.<random> has no room) optionally 1..20 directories of 100 bytes deep, 0..2 seeds (older version sharing some chunks, or unrelated; --seed idx:blob or --seed-dir), prior destination absent/empty/garbage/partly right/complete, SIGKILL while the k-th chunk request is held, or a 404 on it, or (-k) SIGINT/SIGTERM while it is held and the request answered afterwards, " +
+		"extract cases = (1..10 chunk positions over 1..7 distinct chunks, -n 1..4, with/without -k, digest sha512-256 or sha256 (index, store objects and --digest), destination name blob or 200/243/244/250/255 bytes long (from 244 on a temporary .<name>.<random> has no room) optionally 1..20 directories of 100 bytes deep, --skip-invalid-seeds / --regenerate-invalid-seeds in half of the cases, 0..2 seeds (older version sharing some chunks, or unrelated; --seed idx:blob or --seed-dir), prior destination absent/empty/garbage/partly right/complete, SIGKILL while the k-th chunk request is held, or a 404 on it, or (-k) SIGINT/SIGTERM while it is held and the request answered afterwards, " +
 		"or the whole extract under strace -f with all requests answered and the c-th (per thread) open*/truncate/unlink*/rename*/link*/chmod* call killed at its entry or failed with EIO/EXDEV/ENOSPC/EACCES: " +
 		"oracle for non -k = destination byte- and inode-identical to before, or the complete blob once a rename/link onto it was seen to return 0; for -k the re-run oracle: completes with the right bytes and requests no chunk that the file left behind holds at all its positions, nor - one worker - any chunk that lies entirely in front of the k-th requested one). " +
 		"non-trivial = the store child died while a temporary created by StoreChunk existed and was not yet renamed (seen in the strace log) or a write was cut at 0 < b < stored length; " +
@@ -657,7 +658,7 @@ var spec = &hx.Spec[Case]{
 		"extract:inplace-died-midway", "extract:tmpfile-died-midway", "extract:prior=absent", "extract:prior=partial", "extract:prior=garbage", "extract:n>1", "extract:death=kill", "extract:death=err",
 		"extract:rerun-with-some-present", "extract:digest=sha256", "extract:digest=sha256:inplace-rerun",
 		"extract:inplace:new-path:err-midway:rerun", "extract:death=sigint", "extract:death=sigterm", "extract:stopped-by-signal", "extract:rerun-after-known-writes",
-		"extract:seed", "extract:seed-dir", "extract:seed:used", "extract:seed:dest-absent:no-k", "extract:seed:inplace-rerun",
+		"extract:invalid-seed-action=regenerate:inplace", "extract:invalid-seed-action=skip", "extract:seed", "extract:seed-dir", "extract:seed:used", "extract:seed:dest-absent:no-k", "extract:seed:inplace-rerun",
 		"extract:dest-name>=244", "extract:dest-name>=244:prior-exists", "extract:dest-name=243", "extract:deep-dir",
 		"extract:death=strace-kill", "extract:death=strace-err", "extract:final-phase-kill", "extract:killed-at-rename", "extract:rename-failed", "extract:inplace-syscall-death"},
 	Gen: genCase,
